@@ -1018,9 +1018,12 @@ def conform(ctx, run, envs, recs, pool, form_every, best):
         key = (len(json.dumps(rec["term"])), run.name, json.dumps(rec["term"]))
         if fp not in best or key < best[fp][0]:
             best[fp] = (key, what, {"world": runj, "envs": envs, "rec": rec})
+    nm_cases = ctx.cov.setdefault("normal_minus_cases", {})  # mesh kind -> valid integrands with n below '-', validating modes
     for r in recs:
         if r["term"][0] != "T":
             ctx.distinct(json.dumps([run.name, r["cfg"], r["term"], r["d"]]))
+        if r["valid"] and r["verdict"] == "accept" and r["d"] != "none" and any(TERMINALS[l["nm"]][0] == "n" and l["s"] == "-" for l in r["inleaves"]):
+            nm_cases[run.mesh] = nm_cases.get(run.mesh, 0) + 1
     for sl in run.slices:
         st = stats.get(sl.name, {})
         mine = [r for r in recs if r["cfg"] == sl.name]
@@ -1110,6 +1113,10 @@ def run(ctx, args):
     for need in ("accept/accept/valid/d", "accept/accept/valid/nd", "reject/reject/missing/d", "reject/reject/nested/d", "reject/reject/nested/nd", "form:valid/accept/d", "form:valid/accept/nd", "form:invalid/reject/d"):
         if not only and not tot.get(need):
             raise MachineryError(f"vacuous run: no case of class {need}")
+    # every mesh kind must have put the rule of the facet normal to the test
+    for mesh in MESHES:
+        if not only and not ctx.cov.get("normal_minus_cases", {}).get(mesh):
+            raise MachineryError(f"vacuous run: no valid integrand with n('-') on the mesh kind {mesh}")
     ctx.cov["verdict_classes"] = {k: v for k, v in sorted(tot.items()) if "/" in k}
 
 
